@@ -36,7 +36,13 @@ def cek_property(pid, tier, plan, relevant, rule, level='model_checking', max_oo
                 'out=' + out] + g.get('args', [])
         if g['kind'] == 'corpus':
             args = ['corpus', os.path.join(vlib.VERIF, 'corpus', g['file']), out, g['cfgs']]
-        vlib.harness(args)
+        p = vlib.harness(args, check=False, timeout=g.get('timeout', 420 if tier == 'quick' else 5400))
+        if p.returncode != 0:
+            # the harness process died (abort / panic outside catch_unwind in the code under test):
+            # run every session in a child process so that the crash becomes a recorded outcome
+            vlib.log('generation of %s failed (rc=%d); re-running isolated' % (g['kind'], p.returncode))
+            os.environ.setdefault('VERIF_CHILD_SECS', '25' if tier == 'quick' else '90')
+            vlib.harness(args + ['isolate=1'], timeout=7200)
         shards = vlib.shard_lines(out, g.get('shards', 1), wd, 'shard%d' % i)
         for s in shards:
             S = cek.load_sessions(s)
@@ -117,9 +123,17 @@ def c01(tier):
                         'earlier definitions, plus the hand-stated R7RS corpus')
 
 
+REPLAYERS = {}     # replay kind -> function(obj) -> exit code; plug-ins register here
+
+
 def replay(pid, path):
     obj = json.load(open(path))
     print(json.dumps(obj, indent=1)[:6000])
+    if obj.get('kind') == 'numtower':
+        import numtower
+        return numtower.replay(obj)
+    if obj.get('kind') in REPLAYERS:
+        return REPLAYERS[obj['kind']](obj)
     if obj.get('kind') == 'cek-session':
         wd = vlib.workdir('replay')
         src = os.path.join(wd, 'forms.scm')
